@@ -12,15 +12,15 @@ pub mod tracking {
     use vstd::prelude::*;
     use super::*;
 //!type src/core/tracking.rs Run
-pub(crate) struct Run {
-    pub(crate) path: path::PathBuf,
-    pub(crate) id: usize,
+pub struct Run {
+    pub path: path::PathBuf,
+    pub id: usize,
 }
 //!end
 //!type src/core/tracking.rs Table
-pub(crate) struct Table {
-    ⟦pub ⟧run_path: path::PathBuf,
-    ⟦pub ⟧checkpoint_path: path::PathBuf,
+pub struct Table {
+    pub run_path: path::PathBuf,
+    pub checkpoint_path: path::PathBuf,
 }
 //!end
     impl Table {
